@@ -7,8 +7,12 @@ Open Scope nat_scope.
 Record dest := { d_bytes : bytes; d_pos : nat }.
 
 Definition pad (b : bytes) (n : nat) : bytes := b ++ repeat 0%N (n - length b).   (* zero-fill up to n *)
+(* write_all: an empty slice makes no call at all (so no zero-fill of a gap either) *)
 Definition dwrite (d : dest) (v : bytes) : dest :=
-  {| d_bytes := update (pad (d_bytes d) (d_pos d)) (d_pos d) v; d_pos := d_pos d + length v |}.
+  match v with
+  | [] => d
+  | _ => {| d_bytes := update (pad (d_bytes d) (d_pos d)) (d_pos d) v; d_pos := d_pos d + length v |}
+  end.
 Definition dseek (d : dest) (p : nat) : dest := {| d_bytes := d_bytes d; d_pos := p |}.
 
 (* ---- DirSection ---- *)
